@@ -5,6 +5,7 @@ package routing
 // peers on every encounter; peers' vectors are what the script delivered.
 
 import (
+	"os"
 	"fmt"
 	"math"
 	"sort"
@@ -24,6 +25,7 @@ type prophetState struct {
 	events     []prophetEvent                // encounters / imports / ageing ticks with the instant they happened
 	lastCreated time.Time
 	bornAt     time.Time                     // start of the incarnation this state describes
+	ambigAge   int                           // ageing ticks that may or may not be contained in the last emission
 	pInit, beta, gamma float64
 }
 
@@ -243,6 +245,15 @@ func (n *nodeSim) prophetEmission(rec *sendRec) {
 	for k, v := range vec {
 		st.ref[k] = v
 	}
+	// the vector was taken when the bundle was created; the harness sees it when it is handed to a peer. An
+	// ageing tick of that very instant may lie in between (already applied by the node, not contained in the
+	// vector): the forwarding gate is judged against both readings
+	st.ambigAge = 0
+	for _, ev := range st.events {
+		if ev.age && !ev.at.Before(created.Add(-time.Millisecond)) {
+			st.ambigAge++
+		}
+	}
 }
 
 // prophetChoice: an algorithm-chosen transmission of a data bundle under PRoPHET.
@@ -252,11 +263,22 @@ func (n *nodeSim) prophetChoice(tr *btrack, rec *sendRec) {
 	adv, known := st.adv[rec.peer][dest]
 	own := st.ref[dest]
 	n.res.Probe("prophet_forwarding_judged")
+	if st.ambigAge > 0 {
+		own *= math.Pow(st.gamma, float64(st.ambigAge))
+		n.res.Probe("prophet_gate_judged_with_ambiguous_ageing")
+	}
 	eps := 1e-12 + 1e-9*math.Abs(own)
 	if !known || !(adv > own-eps) {
 		sig := "forwarded-to-peer-without-higher-predictability"
 		if !known {
 			sig += "/peer-advertised-nothing"
+		}
+		if os.Getenv("VERIF_LABELS") != "" {
+			if pr, ok := n.core.routing.(*Prophet); ok {
+				pr.dataMutex.RLock()
+				fmt.Fprintf(os.Stderr, "DEBUG real own=%v real peer=%v harness adv=%v\n", pr.predictabilities, pr.peerPredictabilities, st.adv[rec.peer])
+				pr.dataMutex.RUnlock()
+			}
 		}
 		n.res.Violate("C19", "gate", sig, "%s (destination %s) was offered to p%d whose advertised predictability is %v (known=%v); the node's own is %v", rec.tag, dest, rec.peer, adv, known, own)
 	}
